@@ -151,6 +151,7 @@ func (l *listener) Listen() error {
 	l.lock.Lock()
 	config := l.config
 	if config == nil {
+		l.lock.Unlock()
 		return mangos.ErrTLSNoConfig
 	}
 	if config.GetCertificate == nil && (config.Certificates == nil || len(config.Certificates) == 0) {
